@@ -100,6 +100,18 @@ CHECKS = {
         note="read-to-EOF transforms outside a delimiter are measured with an empty trailer only (exempt by the property); negative "
              "lengths and modulus < 2 are not in the alphabet; Pointer (seeking) is not embedded under delimiters",
         design="§3 C05"),
+    "C06": dict(
+        technique="bounded-exhaustive input enumeration plus exhaustive fault injection (deviation-bounded: every stream-operation index x every applicable deviation) on the real code through a scripted stream; exception-class invariant",
+        text="(1) every term of tiers T1-T4 (T5 thorough) plus seeking/lazy/union extras is run on every byte string over a 6-symbol "
+             "alphabet up to length L and on huge length/count fields: parse must terminate and return or raise a ConstructError. "
+             "(2) for every rigid term and every prefix-free canonical encoding, every strict prefix must raise StreamError. (3) "
+             "parse_stream and build_stream run over a ScriptedStream; after a fault-free run records the operation trace, every "
+             "operation index is given every applicable deviation (OSError, short read, short write count, tell/seek failure; all "
+             "pairs in thorough): rigid terms must raise StreamError, recovering terms a ConstructError or return, never a "
+             "foreign exception, a hang or a silently accepted short write.",
+        note="an unsized read() cannot be detectably short and a one-byte read answered with nothing is end-of-stream, so lenient "
+             "readers may return; faults are injected on the outermost stream only (inner regions are BytesIO objects of the library)",
+        design="§2.5, §3 C06"),
 }
 
 PENDING_REASON = "check not built yet in this round (see DESIGN.md §7 build order); it will be decided by the same bounded-exhaustive engine"
